@@ -189,6 +189,7 @@ inductive NId where
   | taskCell (m t : Nat) | taskState (m t : Nat) | sleepHandle (m t : Nat) | mpsc (m t : Nat)
   | timerQueue (m : Nat) | timerSlot (m s : Nat)
   | gate (g : Nat) | chan (c : Nat) (fwd : Bool)
+  | hook                               -- the process-global panic hook (`std::panic::set_hook`); never dropped
   | probe (c : Nat) (fwd : Bool)       -- `ChannelInner.probe : Box<dyn ChannelProbe>` (user supplied)
   deriving DecidableEq, Repr
 
@@ -240,6 +241,27 @@ inductive EvD where
   | restart (m : Nat) | wakeup (m : Nat)                           -- ModuleRestartEvent / AsyncWakeupEvent
   deriving Repr, DecidableEq
 
+/-- how the simulation ended, i.e. which owners exist and are dropped:
+    * `neverBuilt`  — only the `SimBuilder`/`Sim` exists (no `Runtime`, no event set, no `Profiler`);
+    * `unstarted`   — the `Runtime` (owning the `Sim`, the event set and its `Profiler`) is dropped unstarted;
+    * `stepped`     — started, `dispatch_*`, then the `Runtime` is dropped without `finish()`;
+    * `unwound`     — a panic unwinds through the started `Runtime`;
+    * `finishedErr` — `finish()` returned `Err`: the `Runtime` was dropped inside `finish()`;
+    * `finishedOk`  — `finish()` returned the `Sim` and the `Profiler` (with the remaining events), both dropped.
+    In the model the two roots `runtime` and `profiler` are always present: where no `Profiler` was handed
+    out its `remaining` list is empty and dropping it releases nothing; where no `Runtime` exists the
+    event set is empty.  The statics (`BUF_CTX`, `MOD_CTX`) are cleared by the guard inside the `Sim`.
+    The panic hook installed by `at_sim_start` is a process-global that is NOT dropped with the simulation:
+    it is still installed after `stepped`, `unwound` and after a `finishedErr` caused by the inner
+    application (only the end of `at_sim_end` takes it); in the current code it holds nothing. -/
+inductive Stop where
+  | neverBuilt | unstarted | stepped | unwound | finishedErr | finishedOk
+  deriving Repr, DecidableEq
+
+def Stop.hookLeft : Stop → Bool
+  | .stepped | .unwound | .finishedErr => true
+  | _ => false
+
 structure Desc where
   mods : List ModD
   gates : List Nat              -- owner of every gate
@@ -249,6 +271,9 @@ structure Desc where
   buf : List EvD
   /-- the code before the C20 repair: a queued `Connection` keeps `channel: Some(owning channel)` -/
   keepChan : Bool := false
+  stop : Stop := .finishedOk
+  /-- a variant of the code in which the panic hook captures a strong `Arc<Globals>` (seeded defect) -/
+  hookGlobals : Bool := false
   deriving Repr
 
 def fld (s t : NId) : Edge NId := ⟨s, t, .field⟩
@@ -350,11 +375,18 @@ def weakEdges (d : Desc) : List (NId × NId) :=
 
 def roots : List NId := [.runtime, .profiler]
 
+/-- handles held by process-globals that outlive the simulation: the panic hook (nothing in the current code) -/
+def hookEdges (d : Desc) : List (Edge NId) :=
+  if d.hookGlobals && d.stop.hookLeft then [fld .hook .globals] else []
+
+/-- the whole heap: the simulation's graph plus what surviving process-globals hold -/
+def heapEdges (d : Desc) : List (Edge NId) := mkEdges d ++ hookEdges d
+
 /-- drop the `Runtime`/`Sim` and the `Profiler` of the simulation described by `d` -/
-def dropSim (d : Desc) : St NId := dropRoots nidSem (mkEdges d) roots
+def dropSim (d : Desc) : St NId := dropRoots nidSem (heapEdges d) roots
 
 /-- all nodes of the graph: the roots and every handle target -/
-def nodesOf (d : Desc) : List NId := roots ++ (mkEdges d).map (·.tgt)
+def nodesOf (d : Desc) : List NId := roots ++ (heapEdges d).map (·.tgt)
 
 def freedCount (s : St NId) (v : NId) : Nat := s.freed.count v
 
